@@ -28,11 +28,19 @@ func randFree(r *rand.Rand) string {
 	return string(b)
 }
 
+// values whose bytes the implementation preserves (no open finding involved)
+var kvCanonValues = []string{
+	"", "a", "ab", "xyz", "a b", "7", "-3", "0", "12", "100", "1.5", "0.25", "-2.75",
+	"a\r\nb", "\r\n", "\x00", "a\x00b", "\n", "x\xffy", "\xff", "-", "+", ".", "1.2.3", "y7", "b1.5",
+}
+
+var kvPool = kvValues
+
 func randValue(r *rand.Rand) Tok {
 	if r.Intn(4) == 0 {
 		return B(randFree(r))
 	}
-	return B(kvValues[r.Intn(len(kvValues))])
+	return B(kvPool[r.Intn(len(kvPool))])
 }
 
 func pick[T any](r *rand.Rand, xs []T) T { return xs[r.Intn(len(xs))] }
@@ -288,10 +296,28 @@ func randTick(r *rand.Rand) int64 {
 	}
 }
 
+// KVProfile selects what a random generic/string program emphasises.
+type KVProfile struct {
+	Canonical bool // only values that are preserved byte for byte
+	Sample    int  // 1-in-N steps is a run of the background expiry sampler (0 = never)
+	Select    int  // 1-in-N steps switches the embedded caller's database (0 = never)
+	TickHeavy bool // advance the clock before most steps
+	ExpiryMix bool // bias towards commands that set or observe deadlines
+	Dbs       []int
+}
+
 // RandomKVPrograms builds n random programs of the given length.
-func RandomKVPrograms(seed int64, n, length int) []Program {
+func RandomKVPrograms(seed int64, n, length int, prof KVProfile) []Program {
 	r := rand.New(rand.NewSource(seed))
 	presets := kvPresets()
+	if prof.Canonical {
+		kvPool = kvCanonValues
+	} else {
+		kvPool = kvValues
+	}
+	if len(prof.Dbs) == 0 {
+		prof.Dbs = []int{0}
+	}
 	var out []Program
 	for i := 0; i < n; i++ {
 		nk := 2 + r.Intn(3)
@@ -300,10 +326,78 @@ func RandomKVPrograms(seed int64, n, length int) []Program {
 		now := int64(StartMs)
 		for j := 0; j < length; j++ {
 			t := randTick(r)
+			if prof.TickHeavy && r.Intn(2) == 0 {
+				t = pick(r, []int64{1, 250, 500, 999, 1000, 1001, 1999, 2000, 3000, 10000})
+			}
 			now += t
-			p.Steps = append(p.Steps, Step{Cmd: genKV(r, keys, now), Tick: t})
+			if prof.Sample > 0 && r.Intn(prof.Sample) == 0 {
+				p.Steps = append(p.Steps, Step{Kind: "sample", Db: pick(r, prof.Dbs), Tick: t})
+				continue
+			}
+			if prof.Select > 0 && r.Intn(prof.Select) == 0 {
+				p.Steps = append(p.Steps, Step{Kind: "select", Db: pick(r, prof.Dbs), Tick: t})
+				continue
+			}
+			cmd := genKV(r, keys, now)
+			if prof.ExpiryMix && r.Intn(2) == 0 {
+				cmd = genExpiry(r, keys, now)
+			}
+			p.Steps = append(p.Steps, Step{Cmd: cmd, Tick: t})
 		}
 		out = append(out, p)
 	}
 	return out
+}
+
+// genExpiry: commands that set, change or observe deadlines, with short horizons so that the
+// clock ticks of the program actually pass them.
+func genExpiry(r *rand.Rand, keys []string, now int64) []Tok {
+	k := S(pick(r, keys))
+	near := []int64{1, 250, 500, 1000, 1500, 2000, 3000}
+	switch r.Intn(16) {
+	case 0:
+		return []Tok{S("SET"), k, randValue(r), S("PX"), I(pick(r, near))}
+	case 1:
+		return []Tok{S("SET"), k, randValue(r), S("EX"), I(pick(r, []int64{1, 2, 3}))}
+	case 2:
+		return []Tok{S("SET"), k, randValue(r), S("PXAT"), At(now+pick(r, near), "ms")}
+	case 3:
+		return []Tok{S("SET"), k, randValue(r), S("EXAT"), At(now+pick(r, near), "s")}
+	case 4:
+		return []Tok{S("SET"), k, randValue(r), S(pick(r, []string{"NX", "XX"}))}
+	case 5:
+		c := []Tok{S("PEXPIRE"), k, I(pick(r, near))}
+		if r.Intn(2) == 0 {
+			c = append(c, S(pick(r, []string{"NX", "XX", "GT", "LT"})))
+		}
+		return c
+	case 6:
+		c := []Tok{S("PEXPIREAT"), k, At(now+pick(r, near), "ms")}
+		if r.Intn(2) == 0 {
+			c = append(c, S(pick(r, []string{"NX", "XX", "GT", "LT"})))
+		}
+		return c
+	case 7:
+		c := []Tok{S("EXPIRE"), k, I(pick(r, []int64{1, 2, 3}))}
+		if r.Intn(2) == 0 {
+			c = append(c, S(pick(r, []string{"NX", "XX", "GT", "LT"})))
+		}
+		return c
+	case 8:
+		return []Tok{S("GETEX"), k, S("PX"), I(pick(r, near))}
+	case 9:
+		return []Tok{S(pick(r, []string{"TTL", "PTTL", "EXPIRETIME", "PEXPIRETIME"})), k}
+	case 10:
+		return []Tok{S(pick(r, []string{"GET", "TYPE", "STRLEN", "GETDEL", "PERSIST", "INCR", "GETEX"})), k}
+	case 11:
+		return []Tok{S("APPEND"), k, B("z")}
+	case 12:
+		return []Tok{S("RENAME"), k, S(pick(r, keys))}
+	case 13:
+		return []Tok{S("MGET"), k, S(pick(r, keys))}
+	case 14:
+		return []Tok{S("DEL"), k, S(pick(r, keys))}
+	default:
+		return []Tok{S("SETRANGE"), k, I(1), B("q")}
+	}
 }
